@@ -118,7 +118,9 @@ def rule_freeze(F):
     return res
 
 
-FORBIDDEN_CALLS = ("Rc::ptr_eq", "Arc::ptr_eq", "ptr::eq", "ptr::addr_eq", "Rc::strong_count", "Rc::weak_count", "Rc::<T>::as_ptr", "Rc::as_ptr", "into_raw", "from_raw", "get_mut_unchecked", "increment_strong_count", "decrement_strong_count",
+# Operations that expose an address or break the ownership discipline. Observing *identity or sharing* (Rc::ptr_eq, ptr::eq,
+# strong_count, ..) is deterministic and memory-safe; it is M-SHARE's subject (C08, C14), not this rule's (which also serves C20).
+FORBIDDEN_CALLS = ("Rc::<T>::as_ptr", "Rc::as_ptr", "into_raw", "from_raw", "get_mut_unchecked", "increment_strong_count", "decrement_strong_count",
                    "ptr::read", "ptr::write", "ptr::copy", "mem::transmute", "transmute", "ptr::swap", "ptr::replace", "mem::zeroed", "MaybeUninit",
                    "from_raw_parts", "unreachable_unchecked", "get_unchecked", "unwrap_unchecked", "assume_init")
 
